@@ -144,6 +144,14 @@ def phase_mc(c, tier):
     c.set("selftest_mutants_rejected_by", caught)
 
 
+def run_growth_node(c, tier):
+    """Spec growth beyond the listed properties (DESIGN.md 3.7 (1)): Node.tla, the composition of ChainState, ProposalWindow,
+    TxPool / Template and MMR with the cross-module invariants, bound to one real node by whole-node histories over real
+    process restarts (checks/g_node.py, harness g_node).  Numbers land in coverage["growth_node"]."""
+    import g_node
+    g_node.run_growth_node(c, tier)
+
+
 def run(tier):
     c = V.Check(PID, "model_checking", tier)
     c.rule = ("cases = reorg-heavy histories executed on a real node and validated event by event (contents relation + C12 "
@@ -157,6 +165,8 @@ def run(tier):
     ]
     V.build_harness("c12")
     nh, steps = (12, 60) if tier == "quick" else (72, 120)
+    gex = cf.ThreadPoolExecutor(max_workers=1)                   # growth (Node.tla composition): next to the other phases
+    gfut = gex.submit(run_growth_node, c, tier)
     with cf.ThreadPoolExecutor(max_workers=1) as bg:
         fut = bg.submit(phase_mc, c, tier)
         seeds = [(V.seed() * 1000 + i, steps, i) for i in range(nh)]
@@ -194,6 +204,8 @@ def run(tier):
     if tot["reorgs"] < nh or readded == 0 or tot["side_branches_with_commits"] == 0 or tot["mine_mode"] in (0, len(docs)):
         raise V.ToolError("vacuous run: %s" % tot)
     c.sample({"history_prefix": [{k: e[k] for k in e if k in ("ev", "t", "ok", "detach", "attach", "st", "recovered")} for e in docs[0]["events"][:7]]})
+    gfut.result()
+    gex.shutdown()
     return c.finish()
 
 
@@ -201,6 +213,10 @@ def replay(path, tier):
     c = V.Check(PID, "model_checking", tier)
     r = json.load(open(path))
     p = r["payload"]
+    if p["kind"].startswith("growth_node"):
+        import g_node
+        g_node.replay(c, p, tier)
+        return 1 if c.violations else 0
     if p["kind"] == "model":
         res = V.tlc(PID, "MC_PoolReorg", p["cfg"], workers=8)
         if res["violated"]:
